@@ -17,14 +17,20 @@ MAX_STEPS = 200000
 
 
 class Bo:
-    __slots__ = ("t", "f", "origin", "stamp")
+    __slots__ = ("t", "f", "origin", "stamp", "site")
 
-    def __init__(self, t, f, origin=None, stamp=0):
-        self.t, self.f, self.origin, self.stamp = t, f, origin, stamp
+    def __init__(self, t, f, origin=None, stamp=0, site=None):
+        self.t, self.f, self.origin, self.stamp, self.site = t, f, origin, stamp, site
 
     def join(self, o):
-        org = self.origin if self.origin is o.origin else None
-        return Bo(self.t or o.t, self.f or o.f, org, max(self.stamp, o.stamp))
+        if self.origin is o.origin:
+            return Bo(self.t or o.t, self.f or o.f, self.origin, max(self.stamp, o.stamp), self.site)
+        if self.site is not None and self.site == o.site:
+            # the same comparison instruction evaluated on two paths / iterations: provenance is kept structurally
+            m = merge_origin(self.origin, o.origin)
+            if m is not None:
+                return Bo(self.t or o.t, self.f or o.f, m, max(self.stamp, o.stamp), self.site)
+        return Bo(self.t or o.t, self.f or o.f)
 
     def __eq__(self, o):
         return isinstance(o, Bo) and self.t == o.t and self.f == o.f
@@ -34,6 +40,29 @@ class Bo:
 
     def __repr__(self):
         return "Bo<%s>" % ("T|F" if self.t and self.f else "T" if self.t else "F" if self.f else "bottom")
+
+
+def merge_origin(a, b):
+    if a is None or b is None or a[0] != b[0]:
+        return None
+    k = a[0]
+    if k == "cmp":
+        if a[1] != b[1] or a[2][0] != b[2][0] or a[3][0] != b[3][0]:
+            return None
+        return ("cmp", a[1], (a[2][0], join(a[2][1], b[2][1])), (a[3][0], join(a[3][1], b[3][1])))
+    if k == "not":
+        m = merge_origin(a[1], b[1])
+        return ("not", m) if m is not None else None
+    if k == "and":
+        m1, m2 = merge_origin(a[1], b[1]), merge_origin(a[2], b[2])
+        return ("and", m1, m2) if m1 is not None and m2 is not None else None
+    if k == "pred":
+        if a[1] != b[1] or a[2][0] != b[2][0]:
+            return None
+        return ("pred", a[1], (a[2][0], join(a[2][1], b[2][1])))
+    if k == "variant":
+        return a if a[1:] == b[1:] else None
+    return None
 
 
 class St:
@@ -214,10 +243,11 @@ def widen(a, b, lm):
 
 
 class Event:
-    __slots__ = ("kind", "inst", "block", "chain", "detail", "span")
+    __slots__ = ("kind", "inst", "block", "chain", "detail", "span", "sites")
 
-    def __init__(self, kind, inst, block, chain, detail, span):
+    def __init__(self, kind, inst, block, chain, detail, span, sites=()):
         self.kind, self.inst, self.block, self.chain, self.detail, self.span = kind, inst, block, chain, detail, span
+        self.sites = sites      # call sites (caller key, block) from the root down to the event
 
     def key(self):
         return (self.kind, self.inst, self.block, self.chain, self.detail)
@@ -236,11 +266,13 @@ class Interp:
         self.stamp = 0
         self.depth = 0
         self.call_stack = []
+        self.site_stack = []
         self.imprecise = []
         self.landmarks = self._landmarks()
         self.inline_pred = inline_pred
         self.hooks = {}          # optional callbacks: 'draw'
-        self.trace = False
+        import os
+        self.trace = bool(os.environ.get("VERIF_TRACE"))
 
     def _landmarks(self):
         fl = {Fraction(0), Fraction(1), Fraction(-1)}
@@ -279,7 +311,7 @@ class Interp:
     # ------------------------------------------------------------------ events
     def event(self, kind, inst, block, detail, span=None):
         chain = tuple(self.call_stack)
-        e = Event(kind, inst["key"] if inst else None, block, chain, detail, span)
+        e = Event(kind, inst["key"] if inst else None, block, chain, detail, span, tuple(self.site_stack))
         self.events.setdefault(e.key(), e)
 
     # ------------------------------------------------------------------ types
@@ -419,8 +451,12 @@ class Interp:
                 proj.append(("f", e["i"], e.get("ty")))
             elif k == "downcast":
                 proj.append(("v", e["variant"]))
-            elif k in ("index", "constindex"):
-                proj.append(("e",))
+            elif k == "index":
+                iv = st.get((fid, e["local"]))
+                iv = iv.iv if isinstance(iv, DiscrIn) else iv
+                proj.append(("e", (iv.lo, iv.hi)) if isinstance(iv, In) and not iv.is_bottom() else ("e",))
+            elif k == "constindex":
+                proj.append(("e", (e["offset"], e["offset"])) if not e.get("from_end") else ("e",))
             elif k == "subslice":
                 proj.append(("s",))
             else:
@@ -511,7 +547,7 @@ class Interp:
                 if isinstance(val, Vc):
                     val = val.elem
                 elif isinstance(val, Ax) and val.kind == "table":
-                    val = Ax("table_elem", val.data)
+                    val = self.table_elem(val.data[0], e[1] if len(e) > 1 else None)
                 else:
                     val = Top()
             elif e[0] == "s":
@@ -519,6 +555,23 @@ class Interp:
             else:
                 val = Top()
         return val
+
+    def table_elem(self, path, rng):
+        """Hull of the entries of a constant f64 table over an index range (exact values from const evaluation)."""
+        s = self.F.statics.get(path)
+        if not s or "float_bits" not in s:
+            return Top()
+        vals = getattr(self, "_tables", {}).get(path)
+        if vals is None:
+            vals = [f64_from_bits(b) for b in s["float_bits"]]
+            if not hasattr(self, "_tables"):
+                self._tables = {}
+            self._tables[path] = vals
+        lo, hi = (0, len(vals) - 1) if rng is None else (max(rng[0], 0), min(rng[1], len(vals) - 1))
+        if lo > hi:
+            return Fl()
+        sub = vals[lo:hi + 1]
+        return Fl([(Fraction(min(sub)), True, Fraction(max(sub)), True)])
 
     def read_resolved(self, st, r):
         if r[0] == "value":
@@ -693,7 +746,7 @@ class Interp:
         if isinstance(a, Fl) and isinstance(b, Fl):
             if op in cmpops:
                 t, f = V.cmp_outcomes(cmpops[op], a, b, same)
-                return Bo(t, f, ("cmp", cmpops[op], (pa, a), (pb, b)), self.stamp)
+                return Bo(t, f, ("cmp", cmpops[op], (pa, a), (pb, b)), self.stamp, (inst["key"] if inst else None, bi))
             if op == "Add":
                 return V.fl_add(a, b)
             if op == "Sub":
@@ -716,7 +769,7 @@ class Interp:
                 t, f = V.in_cmp(cmpops[op], ai, bi_)
                 if same:
                     t, f = (True, False) if cmpops[op] in ("eq", "le", "ge") else (False, True)
-                return Bo(t, f, ("cmp", cmpops[op], (pa, a), (pb, b)), self.stamp)
+                return Bo(t, f, ("cmp", cmpops[op], (pa, a), (pb, b)), self.stamp, (inst["key"] if inst else None, bi))
             return self.int_binop(op, ai, bi_, inst, bi, span)
         if isinstance(a, Bo) and isinstance(b, Bo):
             if op in ("BitAnd",):
@@ -813,7 +866,7 @@ class Interp:
         a = self.materialize(a)
         if op == "Not":
             if isinstance(a, Bo):
-                return Bo(a.f, a.t, ("not", a.origin) if a.origin else None, a.stamp)
+                return Bo(a.f, a.t, ("not", a.origin) if a.origin else None, a.stamp, a.site)
             if isinstance(a, In):
                 if a.signed:
                     return In(-a.hi - 1, -a.lo - 1, a.bits, True)
@@ -965,6 +1018,7 @@ class Interp:
     def run_root(self, inst, args, st=None):
         self.frames = {}
         self.call_stack = []
+        self.site_stack = []
         self.depth = 0
         return self.run_fn(inst, args, dict(st or {}), None)
 
@@ -977,6 +1031,7 @@ class Interp:
         self.frames[fid] = inst
         self.depth += 1
         self.call_stack.append(inst["key"])
+        self.site_stack.append(call_site)
         blocks = inst["blocks"]
         st0 = dict(st)
         nargs = inst["arg_count"]
@@ -993,6 +1048,7 @@ class Interp:
         ret_val = None
         ret_state = None
         order = _rpo_index(blocks)
+        live_in, always_live = liveness(inst)
         while work:
             self.step += 1
             if self.step > MAX_STEPS:
@@ -1010,6 +1066,10 @@ class Interp:
                     ret_val = rv if ret_val is None else join(ret_val, rv)
                     ret_state = s2 if ret_state is None else join_states(ret_state, s2)
                     continue
+                # drop this frame's dead locals (they would only pollute joins, e.g. stale branch conditions)
+                lv = live_in[succ]
+                s2 = {k: v for k, v in s2.items() if not ((k[0] == fid and k[1] not in lv and k[1] not in always_live) or
+                                                          (k[0] == "w" and k[1] == fid and k[2] not in lv and k[2] not in always_live))}
                 old = in_states.get(succ)
                 if old is None:
                     in_states[succ] = s2
@@ -1027,6 +1087,7 @@ class Interp:
                         if succ not in work:
                             work.append(succ)
         self.call_stack.pop()
+        self.site_stack.pop()
         self.depth -= 1
         self.frames.pop(fid, None)
         if ret_state is None:
@@ -1042,6 +1103,8 @@ class Interp:
                 pl = s["place"]
                 dty = inst["locals"][pl["l"]]["ty"] if not pl["p"] else None
                 val = self.rvalue(st, fid, s["rv"], inst, bi, s.get("span"), dty)
+                if self.trace:
+                    print("%s[%s] bb%d _%d%s = %r" % ("  " * self.depth, inst["path"][-40:], bi, pl["l"], "." if pl["p"] else "", val))
                 if val is None:
                     return []     # unreachable projection (downcast of an impossible variant)
                 if not pl["p"]:
@@ -1194,6 +1257,8 @@ class Interp:
         return self._finish_call(inst, fid, bi, st2, t, val)
 
     def _finish_call(self, inst, fid, bi, st, t, val):
+        if self.trace:
+            print("%s[%s] bb%d _%d = CALL %s -> %r" % ("  " * self.depth, inst["path"][-40:], bi, t["dest"]["l"], (t["func"].get("fn") or {}).get("shown", "?")[:70], val))
         if t.get("target") is None:
             return []
         pl = t["dest"]
@@ -1309,6 +1374,121 @@ class DiscrIn:
 
 DIVERGE = object()
 NOT_HANDLED = object()
+
+
+def _op_uses(op, out):
+    if isinstance(op, dict) and op.get("k") in ("copy", "move"):
+        out.add(op["l"])
+        for p in op["p"]:
+            if p["k"] == "index":
+                out.add(p["local"])
+
+
+def _place_uses(pl, out):
+    for p in pl["p"]:
+        if p["k"] == "index":
+            out.add(p["local"])
+
+
+def liveness(inst):
+    """live-in sets of locals per block (address-taken locals are always live); cached on the instance."""
+    c = inst.get("_live")
+    if c is not None:
+        return c
+    blocks = inst["blocks"]
+    n = len(blocks)
+    use = [set() for _ in range(n)]
+    defs = [set() for _ in range(n)]
+    always = set(range(0, inst["arg_count"] + 1))
+    for bi, b in enumerate(blocks):
+        u, d = use[bi], defs[bi]
+
+        def read(l):
+            if l not in d:
+                u.add(l)
+        for s in b["stmts"]:
+            k = s["k"]
+            if k == "assign":
+                rv = s["rv"]
+                tmp = set()
+                rk = rv["k"]
+                if rk in ("use", "repeat", "cast"):
+                    _op_uses(rv["op"], tmp)
+                elif rk == "binop":
+                    _op_uses(rv["a"], tmp)
+                    _op_uses(rv["b"], tmp)
+                elif rk == "unop":
+                    _op_uses(rv["a"], tmp)
+                elif rk in ("ref", "rawptr"):
+                    always.add(rv["place"]["l"])
+                    tmp.add(rv["place"]["l"])
+                    _place_uses(rv["place"], tmp)
+                elif rk in ("discriminant", "len"):
+                    tmp.add(rv["place"]["l"])
+                    _place_uses(rv["place"], tmp)
+                elif rk == "aggregate":
+                    for o in rv["ops"]:
+                        _op_uses(o, tmp)
+                for l in tmp:
+                    read(l)
+                pl = s["place"]
+                _tmp2 = set()
+                _place_uses(pl, _tmp2)
+                for l in _tmp2:
+                    read(l)
+                if pl["p"]:
+                    read(pl["l"])
+                else:
+                    d.add(pl["l"])
+            elif k == "set_discriminant":
+                read(s["place"]["l"])
+            elif k == "assume":
+                tmp = set()
+                _op_uses(s["op"], tmp)
+                for l in tmp:
+                    read(l)
+        t = b["term"]
+        if t:
+            tmp = set()
+            tk = t["k"]
+            if tk == "switch":
+                _op_uses(t["discr"], tmp)
+            elif tk == "assert":
+                _op_uses(t["cond"], tmp)
+                for o in t.get("ops", []):
+                    _op_uses(o, tmp)
+            elif tk == "call":
+                _op_uses(t["func"], tmp)
+                for a in t["args"]:
+                    _op_uses(a, tmp)
+                _place_uses(t["dest"], tmp)
+            elif tk == "drop":
+                tmp.add(t["place"]["l"])
+            elif tk == "return":
+                tmp.add(0)
+            for l in tmp:
+                read(l)
+            if tk == "call":
+                if t["dest"]["p"]:
+                    read(t["dest"]["l"])
+                else:
+                    d.add(t["dest"]["l"])
+    live_in = [set() for _ in range(n)]
+    succs = [successors(b["term"]) for b in blocks]
+    changed = True
+    while changed:
+        changed = False
+        for bi in range(n - 1, -1, -1):
+            out = set()
+            for sc in succs[bi]:
+                out |= live_in[sc]
+            new = use[bi] | (out - defs[bi])
+            if new != live_in[bi]:
+                live_in[bi] = new
+                changed = True
+    res = (live_in, always)
+    inst["_live"] = res
+    return res
 
 
 def _tdiv(a, b):
